@@ -45,6 +45,8 @@ Base == [arr |-> [arr |-> <<<<I(1), I(2), I(3)>>, <<I(4), I(5), I(6)>>>>, dims |
          nx |-> S("x"),
          \* one generic record with a computed field, instantiated with an integer and with a floating-point type: the type of
          \* `ga.val` / `gb.val` is that of the instantiation accessed, whichever was resolved first
+         \* fields whose type is an alias of a 16-bit integer: arithmetic on them is done in (at least) 32 bits, as on the primitives
+         cnt |-> I(300), sm |-> I(20000), cv |-> Vec(<<I(300), I(250)>>),
          ga |-> [rec |-> [x |-> I(11), val |-> I(11), again |-> I(11)]],
          gb |-> [rec |-> [x |-> H(5), val |-> H(5), again |-> H(5)]]]
 
@@ -169,7 +171,12 @@ Generics == { Mem(Fld(g), m) : g \in {"ga", "gb"}, m \in {"x", "val", "again"} }
             \cup { Bin("+", Mem(Fld("gb"), "val"), Mem(Fld("ga"), "val")), Bin("+", Mem(Fld("ga"), "val"), Lit(1)), Bin("*", Mem(Fld("gb"), "again"), Lit(2)),
                    Bin("+", Mem(Fld("ga"), "again"), Mem(Fld("ga"), "val")), Idx(VecF, <<Arg("", Bin("-", Mem(Fld("ga"), "val"), Lit(10)))>>) }
 
-Exprs == Plain \cup Fixed \cup Switches \cup TwoArrays \cup Generics
+SmallAliases == { Bin("*", Fld("cnt"), Fld("cnt")), Bin("+", Fld("sm"), Fld("sm")), Bin("-", Bin("*", Fld("cnt"), Fld("cnt")), Lit(1)),
+                  Bin("*", Fld("cnt"), Fld("sm")), Bin("-", Fld("cnt"), Fld("sm")), Bin("+", Fld("cnt"), Lit(65535)),
+                  Bin("*", Idx(Fld("cv"), <<Arg("", Lit(0))>>), Idx(Fld("cv"), <<Arg("", Lit(1))>>)),
+                  Bin("*", Idx(Fld("cv"), <<Arg("", Lit(0))>>), Idx(Fld("cv"), <<Arg("", Lit(0))>>)) }
+
+Exprs == Plain \cup Fixed \cup Switches \cup TwoArrays \cup Generics \cup SmallAliases
 EnvOf(val) == [n \in DOMAIN Base \cup DOMAIN val |-> IF n \in DOMAIN val THEN val[n] ELSE Base[n]]
 ValSeq == SetToSeq(Valuations)
 Cases == { [e |-> e, values |-> [j \in 1..Len(ValSeq) |-> Eval(e, EnvOf(ValSeq[j]))]] : e \in Exprs }
